@@ -150,6 +150,8 @@ CONSTANTS
   MaxTime = %(maxtime)d
   Grid = {%(grid)s}
   MaxInst = 2
+  Keep = %(keep)s
+  WithEvict = %(evict)s
 VIEW View
 CONSTRAINT ClockGrid
 CONSTRAINT InstBound
@@ -169,15 +171,25 @@ CORE = {
     'C08': (['C08_AtMostOne', 'C08_CreatedFirst', 'C08_TerminalReported', 'C08_BranchSilent', 'C08_MsgAct',
              'C08_ParentFirst'], []),
     'C19': (['C19_Once', 'C19_NeverEarly', 'C19_OnlyOpen', 'C19_Prompt'], ['C19_TickKeepsStates']),
+    'C11': (['C11_Image'], []),
+    # C12 at the level of the specification: Evict is a stuttering step by construction; what makes that
+    # sound is that nothing exists in memory only at a quiescent point (C11_Image with evictions enabled)
+    'C12': (['C11_Image', 'C01_QuiescentOK'], []),
+    'C17': (['C17_Retention', 'C17_Refused', 'C03_Events'], []),
 }
 
 # which trace group a property's conformance leg uses (default: core)
-GROUP = {'C19': 'clock'}
+GROUP = {'C19': 'clock', 'C11': 'store', 'C12': 'store', 'C17': 'store'}
 
 TIERS = {
     # mc: list of (family, client action budget); rand: list of (family, runs, shards)
     'quick': dict(mc=[('hand+core6', 1), ('handseq', 2)], mc_workers=8, mc_timeout=900,
                   mc_clock=[('timed', 1), ('timedunits', 0)],
+                  mc_store=[('hand+core6', 1, 'TRUE'), ('handseq', 2, 'FALSE')],   # (family, budget, Keep)
+                  store=dict(explore=[('handseq', 1, 4, 1, ['--evict'])],
+                             rand=[('hand', 500, 2, ['--evict']), ('core6', 900, 2, ['--evict']),
+                                   ('hand', 500, 2, ['--nokeep']), ('core6', 600, 2, ['--nokeep'])],
+                             rand_budget=3, rand_pact=0.3, nat_runs=0),
                   clock=dict(explore=[('timedsmall', 0, 4, 2)], rand=[('timed+timedunits', 1200, 3)], rand_budget=2,
                              rand_pact=0.2, nat_runs=0),
                   explore=[('handseq', 2, 10, 2)],      # (family, client budget, processes, files per process)
@@ -185,6 +197,11 @@ TIERS = {
                   nat_family='hand+core6', nat_runs=1000, nat_shards=2),
     'thorough': dict(mc=[('hand+core7', 2), ('handseq', 3)], mc_workers=12, mc_timeout=7200,
                      mc_clock=[('timed', 2), ('timedunits', 1)],
+                     mc_store=[('hand+core7', 2, 'TRUE'), ('hand+core6', 2, 'FALSE')],
+                     store=dict(explore=[('handseq', 2, 12, 4, ['--evict']), ('handseq', 2, 8, 2, ['--nokeep'])],
+                                rand=[('hand', 6000, 4, ['--evict']), ('core7', 20000, 6, ['--evict']),
+                                      ('hand', 4000, 2, ['--nokeep']), ('core7', 10000, 4, ['--nokeep'])],
+                                rand_budget=4, rand_pact=0.3, nat_runs=0),
                      clock=dict(explore=[('timed', 2, 12, 4), ('timedunits', 1, 4, 1)],
                                 rand=[('timed+timedunits', 20000, 6)], rand_budget=4, rand_pact=0.25, nat_runs=0),
                      explore=[('handseq', 3, 14, 4), ('hand', 1, 14, 4), ('core6', 1, 8, 2)],
@@ -197,8 +214,14 @@ def mc_check(prop, tier):
     """TLC on the specification, one run per (family, budget) of the tier; stops at the first violated run."""
     t = TIERS[tier]
     runs = []
-    for i, (famname, budget) in enumerate(t['mc_clock'] if GROUP.get(prop) == 'clock' else t['mc']):
-        r = mc_one(prop, tier, famname, budget, i)
+    g = GROUP.get(prop)
+    plan = t['mc_clock'] if g == 'clock' else t['mc_store'] if g == 'store' else t['mc']
+    for i, item in enumerate(plan):
+        famname, budget = item[0], item[1]
+        keep = item[2] if len(item) > 2 else 'TRUE'
+        if prop == 'C11' and keep == 'FALSE':
+            continue
+        r = mc_one(prop, tier, famname, budget, i, keep, 'TRUE' if prop == 'C12' else 'FALSE')
         runs.append(r)
         if r['violated']:
             break
@@ -211,7 +234,7 @@ def mc_check(prop, tier):
                            states=r['states'], transitions=r['transitions'], wall=round(r['wall'], 1)) for r in runs])
 
 
-def mc_one(prop, tier, famname, budget, idx):
+def mc_one(prop, tier, famname, budget, idx, keep='TRUE', evict='FALSE'):
     invs, props = CORE[prop]
     t = TIERS[tier]
     fam = family(famname)
@@ -222,7 +245,7 @@ def mc_one(prop, tier, famname, budget, idx):
         grid |= set(c.get('grid', []))
     cfg = MC_CONSTANTS % dict(budget=budget, kinds=', '.join('"%s"' % k for k in ALL_KINDS),
                               adv=', '.join(str(x) for x in sorted(adv)), maxtime=max(grid),
-                              grid=', '.join(str(x) for x in sorted(grid)))
+                              grid=', '.join(str(x) for x in sorted(grid)), keep=keep, evict=evict)
     cfg += ''.join('INVARIANT %s\n' % i for i in invs) + ''.join('PROPERTY %s\n' % p for p in props)
     tag = 'mc-%s-%s-%d' % (prop, tier, idx)
     dump = '%s/cfg/%s.trace.json' % (WORK, tag)
@@ -256,6 +279,8 @@ CONSTANTS
   SharedCatchPrev = FALSE
   AdvSet = {1}
   MaxTime = 0
+  Keep = %(keep)s
+  WithEvict = TRUE
 POSTCONDITION %(post)s
 CHECK_DEADLOCK FALSE
 '''
@@ -291,7 +316,7 @@ def strict_validate(path, tag):
             cur = '%s.rest%d' % (path, attempt)
             with open(cur, 'w') as fh:
                 fh.write('\n'.join(lines[scen[start]:]) + '\n')
-        cfg = TRACE_CFG % dict(spec='TraceSpec', post='TraceAccepted')
+        cfg = TRACE_CFG % dict(spec='TraceSpec', post='TraceAccepted', keep='FALSE' if 'nokeep' in path else 'TRUE')
         out, wall = tlc('TraceActs.tla', cfg, '%s-strict%d' % (tag, attempt), env={'TRACE': cur}, workers=1,
                         timeout=1800, java_opts=JOPTS)
         total_wall += wall
@@ -319,7 +344,7 @@ def strict_validate(path, tag):
 
 
 def observe_validate(path, tag):
-    cfg = TRACE_CFG % dict(spec='ObsSpec', post='ObsDone')
+    cfg = TRACE_CFG % dict(spec='ObsSpec', post='ObsDone', keep='FALSE' if 'nokeep' in path else 'TRUE')
     out, wall = tlc('Observe.tla', cfg, '%s-obs' % tag, env={'TRACE': path}, workers=1, timeout=1800,
                     java_opts=JOPTS)
     obs = []
@@ -357,28 +382,34 @@ def record_traces(tier, seed, key, group='core'):
                            '--drain', '--workdir', d + '/run']))
     # 2. seeded random gated runs (impl -> spec)
     n = 0
-    for famname, runs, shards in t['rand']:
+    for item in t['rand']:
+        famname, runs, shards = item[:3]
+        flags = item[3] if len(item) > 3 else []
+        tagx = ''.join(f.replace('--', '-') for f in flags)
         fam = family(famname)
         nmodels = count_lines(fam)
         per = (runs + shards - 1) // shards
         for i in range(shards):
-            out = '%s/rand-%02d.ndjson' % (d, n)
+            out = '%s/rand%s-%02d.ndjson' % (d, tagx, n)
             kinds = ','.join(ALL_KINDS + ['complete', 'complete', 'abort', 'error', 'error', 'skip'])
             jobs.append((out, [HARNESS, 'random', '--models', fam, '--out', out, '--runs', str(per),
                                '--seed', str(seed * 1000 + n), '--offset', str((i * per) % nmodels),
                                '--pact', str(t['rand_pact']), '--budget', str(t['rand_budget']), '--kinds', kinds,
-                               '--workdir', d + '/run']))
+                               '--workdir', d + '/run'] + flags))
             n += 1
     # 2b. exhaustive exploration of the IMPLEMENTATION for the small families: every reachable
     #     (state, choice) pair under the gate, up to the client budget
-    for famname, budget, shards, split in t.get('explore', []):
+    for item in t.get('explore', []):
+        famname, budget, shards, split = item[:4]
+        flags = item[4] if len(item) > 4 else []
+        tagx = ''.join(f.replace('--', '-') for f in flags)
         fam = family(famname)
         for i in range(shards):
-            out = '%s/expl-%s-b%d-%02d.ndjson' % (d, famname, budget, i)
-            jobs.append(([out + '.%d' % k for k in range(split)],
+            out = '%s/expl-%s-b%d%s-%02d.ndjson' % (d, famname, budget, tagx, i)
+            jobs.append(([out + '.%d' % k for k in range(split)] if split > 1 else [out],
                          [HARNESS, 'explore', '--models', fam, '--out', out, '--budget', str(budget),
                           '--kinds', ','.join(ALL_KINDS), '--shard', str(i), '--shards', str(shards),
-                          '--split', str(split), '--max-runs', '200000', '--workdir', d + '/run']))
+                          '--split', str(split), '--max-runs', '200000', '--workdir', d + '/run'] + flags))
     fam = family(t['nat_family'] or 'hand')
     nmodels = count_lines(fam)
 
@@ -532,6 +563,31 @@ def check_core(prop, tier, seed):
                                dict(formula=o['prop'], task=o['task'], step=o['step'], findings=o['kf'],
                                     trace=[json.loads(x) for x in lines]))
             violations.append((o['prop'], path))
+
+    # C12 is defined against the uninterrupted run, i.e. against the specification, in which a reload
+    # is a stuttering step: a step the specification cannot follow AFTER an eviction is a violation
+    if prop == 'C12':
+        for dr in drift:
+            lines = scenario_lines(dr['file'], dr['scenario'] + 1)
+            recs = [json.loads(x) for x in lines]
+            first_line = dr['line'] - (sum(1 for _ in open(dr['file'])) - 0) if False else None
+            # position of the unmatched line inside the scenario
+            start = 0
+            with open(dr['file']) as fh:
+                n = 0
+                for i, ln in enumerate(fh):
+                    if '"ev":"model"' in ln:
+                        n += 1
+                        if n == dr['scenario'] + 1:
+                            start = i
+                            break
+            upto = dr['line'] - 1 - start
+            if any(r.get('a') == 'Evict' for r in recs[:max(upto, 0)]):
+                path = replay_file(prop, tier, seed, 'after an eviction the reloaded process does not continue as the '
+                                   'uninterrupted one (the specification cannot follow the step)',
+                                   dict(formula='STRICT after Evict', unmatched_line_in_scenario=upto, detail=dr['detail'],
+                                        trace=recs))
+                violations.append(('reload', path))
 
     # a violation on the specification: replay the counterexample on the engine
     if mc['violated']:
